@@ -284,6 +284,29 @@ CLAIMED = {
             'solver-enumerated parameter tables (z3 all-SAT over row order, '
             'positions, shapes, flags) executed on the real function and '
             'compared with an independent superposition oracle'),
+    'C12': ('3/C12',
+            'On a noise-free rendered 5-source scene (two blended pairs + '
+            'one isolated source) the solver enumerates input row orders '
+            '(12 of 120 in quick, all in thorough) x {6 supplied group_id '
+            'partitions incl. interleaved membership, SourceGrouper, no '
+            'grouping} x 4 masks x fixed-parameter choice: rows come back '
+            'in input order with ids 1..N, group_id equals the supplied '
+            'partition / the single-linkage clusters (first-appearance ids), '
+            'group_size is the number of rows sharing the group, npixfit is '
+            'the number of unmasked pixels of the fit window inside the '
+            'image, fixed parameters keep their initial value, blended '
+            'pairs fitted together recover x, y, flux; per-source results '
+            'are invariant under row order, fluxes scale with the image, '
+            'IterativePSFPhotometry(maxiters=1) equals PSFPhotometry (also '
+            'when the residual contains new detections). SourceGrouper on a '
+            'solver-chosen half-integer lattice equals union-find on '
+            'distance <= min_separation.',
+            'fits are concrete float computations with stated tolerances; '
+            'one scene and one PSF model; xy_bounds flags not covered',
+            'solver-enumerated bookkeeping inputs (z3 all-SAT over row '
+            'order, partitions, masks, flags, lattice points) executed on '
+            'the real photometry classes against rendered-truth and '
+            'reference-model oracles'),
 }
 
 NOT_YET = {}
